@@ -21,62 +21,30 @@ pub struct Scn {
     pub cfg: SysCfg,
 }
 
-#[derive(Clone, Copy, Debug)]
-enum StoreKind {
-    Lit(u8),
-    BitSet(u8),
-    BitClr(u8),
-}
+use crate::harness::decode::{decode_stores, parse_u8_line, ByteStore};
 
 fn rd(cpu: &Cpu, a: u32) -> u8 {
     cpu.bus.read(a & 0x00ff_ffff).unwrap_or(0)
 }
-fn breg(er: &[u32; 8], r: u8) -> u8 {
-    if r < 8 {
-        (er[r as usize] >> 8) as u8
-    } else {
-        er[(r - 8) as usize] as u8
-    }
+
+fn is_port(a: u32) -> bool {
+    (DDR_BASE..DDR_BASE + 11).contains(&a) || (DR_BASE..DR_BASE + 11).contains(&a)
 }
 
-/// Store forms the generated guests use on port registers.
-fn decode_port_store(cpu: &Cpu, pc: u32, er: &[u32; 8]) -> Option<(u32, StoreKind)> {
-    let b0 = rd(cpu, pc);
-    let b1 = rd(cpu, pc + 1);
-    let is_port = |a: u32| (DDR_BASE..DDR_BASE + 11).contains(&a) || (DR_BASE..DR_BASE + 11).contains(&a);
-    if b0 & 0xf0 == 0x30 {
-        let a = 0xffff00 | b1 as u32;
-        if is_port(a) {
-            return Some((a, StoreKind::Lit(breg(er, b0 & 0x0f))));
-        }
-    } else if b0 == 0x6a && b1 & 0xf0 == 0xa0 {
-        let a = ((rd(cpu, pc + 3) as u32) << 16) | ((rd(cpu, pc + 4) as u32) << 8) | rd(cpu, pc + 5) as u32;
-        if is_port(a) {
-            return Some((a, StoreKind::Lit(breg(er, b1 & 0x0f))));
-        }
-    } else if b0 == 0x7f {
-        let a = 0xffff00 | b1 as u32;
-        if is_port(a) {
-            let o0 = rd(cpu, pc + 2);
-            let bit = (rd(cpu, pc + 3) >> 4) & 7;
-            return match o0 {
-                0x70 => Some((a, StoreKind::BitSet(bit))),
-                0x72 => Some((a, StoreKind::BitClr(bit))),
-                _ => None,
-            };
-        }
-    }
-    None
+/// Byte writes to port registers the instruction at `pc` is about to perform, in order.
+fn decode_port_store(cpu: &Cpu, pc: u32, er: &[u32; 8]) -> Vec<(u32, ByteStore)> {
+    decode_stores(cpu, pc, er).into_iter().filter(|(a, _)| is_port(*a)).collect()
 }
 
 struct PortObserver {
     o: PortOracle,
     pending_lines: Vec<POp>,
-    pending_store: Option<(u32, StoreKind)>,
+    pending_store: Vec<(u32, ByteStore)>,
     msgs_checked: u64,
     stores: u64,
     pin_events: u64,
     rmw: u64,
+    ext_writes: u64,
     sig: Fnv,
     paused: bool,
 }
@@ -97,38 +65,43 @@ impl Observer for PortObserver {
     fn boundary(&mut self, cpu: &mut Cpu, g: &Guest, row: &Row, prev: Option<&Row>, new: &[String]) -> Result<(), Failure> {
         if let Some(p) = prev {
             let before = self.o.outputs();
+            let mut seen = vec![before];
             // what happened during the previous iteration, in the order run() does it
-            for op in self.pending_lines.drain(..) {
+            for op in std::mem::take(&mut self.pending_lines) {
                 self.o.apply(&op);
-                self.pin_events += 1;
+                seen.push(self.o.outputs());
+                if matches!(op, POp::Pins { .. }) {
+                    self.pin_events += 1;
+                }
                 self.sig.byte(3);
             }
             let executed = row.state != p.state;
             let entry = executed && row.sp == p.sp.wrapping_sub(4) && g.handler_after_brn(row.pc).is_some();
             if executed && !entry {
-                if let Some((addr, kind)) = self.pending_store.take() {
+                for (addr, kind) in std::mem::take(&mut self.pending_store) {
                     let is_ddr = addr < 0xff0000;
                     let port = if is_ddr { addr - DDR_BASE } else { addr - DR_BASE } as u8 + 1;
                     let cur = self.o.m[port as usize - 1];
                     let val = match kind {
-                        StoreKind::Lit(v) => v,
+                        ByteStore::Lit(v) => v,
                         // read-modify-write of DR reads the merged value (pins on input bits)
-                        StoreKind::BitSet(b) => {
+                        ByteStore::BitSet(b) => {
                             self.rmw += 1;
                             cur.dr_read() | (1 << b)
                         }
-                        StoreKind::BitClr(b) => {
+                        ByteStore::BitClr(b) => {
                             self.rmw += 1;
                             cur.dr_read() & !(1 << b)
                         }
                     };
                     self.o.apply(&if is_ddr { POp::Ddr { port, val } } else { POp::Dr { port, val } });
+                    seen.push(self.o.outputs());
                     self.stores += 1;
                     self.sig.byte(if is_ddr { 1 } else { 2 });
                     self.sig.byte(port);
                 }
-            } else if !executed {
-                self.pending_store = None;
+            } else {
+                self.pending_store.clear();
             }
             let mut reads = [0u8; NPORTS];
             for i in 0..NPORTS {
@@ -137,7 +110,7 @@ impl Observer for PortObserver {
             let io: Vec<String> = new.iter().filter(|m| m.starts_with("ioport:")).cloned().collect();
             self.msgs_checked += io.len() as u64;
             self.o
-                .check(&reads, &io, &before, p.state, row.state)
+                .check_multi(&reads, &io, &seen, p.state, row.state)
                 .map_err(|e| Failure::new("c16.sys", format!("iteration {} (PC={:06x}): {}", p.iter, p.pc, e)))?;
         }
         self.pending_store = decode_port_store(cpu, row.pc, &cpu.er);
@@ -154,6 +127,15 @@ impl Observer for PortObserver {
                         self.paused = false;
                     } else if let Some(op) = parse_line(l) {
                         self.pending_lines.push(op);
+                    } else if let Some((a, v)) = parse_u8_line(l) {
+                        // a byte written from outside goes through the same bus path as a CPU store
+                        if (DDR_BASE..DDR_BASE + 11).contains(&a) {
+                            self.pending_lines.push(POp::Ddr { port: (a - DDR_BASE) as u8 + 1, val: v });
+                            self.ext_writes += 1;
+                        } else if (DR_BASE..DR_BASE + 11).contains(&a) {
+                            self.pending_lines.push(POp::Dr { port: (a - DR_BASE) as u8 + 1, val: v });
+                            self.ext_writes += 1;
+                        }
                     }
                 }
             }
@@ -172,8 +154,10 @@ impl Observer for PortObserver {
         }
         // the final iteration (the jump to the exit) makes no port access; pin events fired at its top still apply
         let before = self.o.outputs();
-        for op in self.pending_lines.drain(..) {
+        let mut seen = vec![before];
+        for op in std::mem::take(&mut self.pending_lines) {
             self.o.apply(&op);
+            seen.push(self.o.outputs());
         }
         let mut reads = [0u8; NPORTS];
         for i in 0..NPORTS {
@@ -181,11 +165,27 @@ impl Observer for PortObserver {
         }
         let io: Vec<String> = tail.iter().filter(|m| m.starts_with("ioport:")).cloned().collect();
         let lo = last.map(|r| r.state).unwrap_or(0);
-        self.o.check(&reads, &io, &before, lo, cpu.verif_state_sum() as u64).map_err(|e| Failure::new("c16.sys", format!("after run() returned: {}", e)))
+        self.o.check_multi(&reads, &io, &seen, lo, cpu.verif_state_sum() as u64).map_err(|e| Failure::new("c16.sys", format!("after run() returned: {}", e)))
     }
 }
 
 pub struct C16S;
+
+/// The same byte store in one of the generated forms (absolute, @ER6, @(d:16,ER6), @-ER6, high byte of a word store
+/// whose low byte lands in the next port's register).
+fn vary(rng: &mut Rng, addr: u32, val: u8) -> Block {
+    match rng.below(8) {
+        0 => Block::StoreVia { addr, val, mode: 1, disp: 0 },
+        1 => {
+            let room = 0x00ff_ffffi64 - addr as i64;
+            let d = *rng.pick(&[0i16, 1, 0x7f, 0x7fff, -1, -0x20]);
+            Block::StoreVia { addr, val, mode: 2, disp: if (d as i64) < 0 && -(d as i64) > room { 0x7f } else { d } }
+        }
+        2 => Block::StoreVia { addr, val, mode: 3, disp: 0 },
+        3 if (addr - if addr < 0xff0000 { DDR_BASE } else { DR_BASE }) < 10 => Block::StoreW { addr, val: ((val as u16) << 8) | rng.u8() as u16 },
+        _ => Block::Store { addr, val, short: rng.chance(1, 2) },
+    }
+}
 
 impl Property for C16S {
     type Scn = Scn;
@@ -203,8 +203,8 @@ impl Property for C16S {
             let port = *rng.pick(&ports) as u32;
             let val = if rng.chance(2, 3) { *rng.pick(&covering) } else { rng.u8() };
             blocks.push(match rng.below(10) {
-                0 | 1 => Block::Store { addr: DDR_BASE + port - 1, val, short: false },
-                2 | 3 => Block::Store { addr: DR_BASE + port - 1, val, short: rng.chance(1, 2) },
+                0 | 1 => vary(rng, DDR_BASE + port - 1, val),
+                2 | 3 => vary(rng, DR_BASE + port - 1, val),
                 4 => Block::Bset { aa: (0xd0 + port - 1) as u8, bit: rng.below(8) as u8 },
                 5 => Block::Bclr { aa: (0xd0 + port - 1) as u8, bit: rng.below(8) as u8 },
                 6 => Block::Arith(rng.u8()),
@@ -223,6 +223,7 @@ impl Property for C16S {
                 0 => Action::Pins { port, val },
                 1 => Action::Lines((0..rng.range(2, 4)).map(|_| format!("ioport:{:x}:{:x}", *rng.pick(&ports), rng.u8())).collect()),
                 2 => Action::Lines(vec![format!("ioport:{:x}:{:x}", port, val), "ioport:c:ff".into(), "ioport:0:1".into()]),
+                3 => Action::Lines(vec![format!("u8:{:x}:{:x}", if rng.chance(1, 2) { DDR_BASE } else { DR_BASE } + port as u32 - 1, val)]),
                 _ => Action::Lines(vec![format!("ioport:{:x}:{:x}", port, val)]),
             };
             events.push(Event { trig: at, act });
@@ -249,7 +250,7 @@ impl Property for C16S {
                 _ => return Verdict::Invalid("event kind not part of C16 scenarios".into()),
             }
         }
-        let obs = PortObserver { o: PortOracle::new(Deviation::default()), pending_lines: vec![], pending_store: None, msgs_checked: 0, stores: 0, pin_events: 0, rmw: 0, sig: Fnv::new(), paused: false };
+        let obs = PortObserver { o: PortOracle::new(Deviation::default()), pending_lines: vec![], pending_store: vec![], msgs_checked: 0, stores: 0, pin_events: 0, rmw: 0, ext_writes: 0, sig: Fnv::new(), paused: false };
         let (run, obs) = run_sys(&g, &scn.cfg, &scn.events, obs, false, |_| {});
         if let Outcome::Panic(p) = &run.outcome {
             return Verdict::Fail(Failure::keyed("c16.sys.panic", format!("{}:{}", p.file, p.msg), format!("panic at {}:{}: {}", p.file, p.line, p.msg)));
@@ -260,6 +261,7 @@ impl Property for C16S {
         add(stats, "probe.guest_port_stores", obs.stores);
         add(stats, "probe.read_modify_write_stores", obs.rmw);
         add(stats, "event.pin_changes_applied", obs.pin_events);
+        add(stats, "event.port_register_writes_from_outside", obs.ext_writes);
         add(stats, "probe.ioport_messages_checked", obs.msgs_checked);
         add(stats, "sim_guest_states", run.fin.state_sum);
         add(stats, "sim_host_ns", run.clock.final_ns);
